@@ -185,7 +185,11 @@ func (a *AreaMembers) Clone() AreaMembers {
 		ids:      make([][]b6.FeatureID, len(a.ids)),
 		polygons: make([]*s2.Polygon, len(a.polygons)),
 	}
-	copy(clone.ids, a.ids)
+	for i, ids := range a.ids {
+		if ids != nil {
+			clone.ids[i] = append([]b6.FeatureID{}, ids...)
+		}
+	}
 	copy(clone.polygons, a.polygons)
 	return clone
 }
@@ -479,8 +483,8 @@ func (c *CollectionFeature) Clone() Feature {
 	return &CollectionFeature{
 		CollectionID: c.CollectionID,
 		Tags:         c.Tags.Clone(),
-		Keys:         c.Keys,
-		Values:       c.Values,
+		Keys:         append([]interface{}{}, c.Keys...),
+		Values:       append([]interface{}{}, c.Values...),
 		sorted:       c.sorted,
 	}
 }
@@ -495,9 +499,9 @@ func (c *CollectionFeature) MergeFrom(other Feature) {
 
 func (c *CollectionFeature) MergeFromCollectionFeature(other *CollectionFeature) {
 	c.CollectionID = other.CollectionID
-	c.Tags = other.Tags
-	c.Keys = other.Keys
-	c.Values = other.Values
+	c.Tags = other.Tags.Clone()
+	c.Keys = append([]interface{}{}, other.Keys...)
+	c.Values = append([]interface{}{}, other.Values...)
 	c.sorted = other.sorted
 }
 
